@@ -9,7 +9,10 @@ git -C /repo worktree add -q --detach "$W" HEAD >/dev/null 2>&1 || { echo "workt
 cleanup() { git -C /repo worktree remove --force "$W" >/dev/null 2>&1; rm -rf "$W"; }
 trap cleanup EXIT
 # carry over uncommitted contract files of /repo (hooks) if any
-if [ "$1" = "-e" ]; then
+if [ "$1" = "-p" ]; then
+  perl -0pi -e "$2" "$W/$3" || exit 3
+  (cd "$W" && git diff --stat | tail -1)
+elif [ "$1" = "-e" ]; then
   sed -i -E "$2" "$W/$3" || exit 3
   (cd "$W" && git diff --stat | tail -1)
 else
